@@ -349,3 +349,14 @@ def extend(g, api):
     fun('mtudBlackHoleMtu', ['currentMtu', 'minMtu'], 'Nat', MT + '::MtuDiscovery::black_hole_detected new current_mtu', lambda: outer('bhd'))
     fun('mtudResetClamp', ['currentMtu', 'peerMax'], 'Nat', MT + '::MtuDiscovery::reset with discovery disabled: peer limit re-applied', lambda: outer('reset'))
     g.nat('mtudInitialPeerMax', MT + '::MtuDiscovery::with_state remembered peer limit before the transport parameters arrive', lambda: outer('with_state'))
+
+    # ---- C13: size limit of the next datagram in Connection::poll_transmit (loss probes are clamped to INITIAL_MTU in EVERY space)
+    connrs = 'quinn-proto/src/connection/mod.rs'
+    def probe_clamp():
+        body = api.strip_comments(api.fn_body(api.read(connrs), 'poll_transmit'))
+        pat = (r'let next_datagram_size_limit = match self\.spaces\[space_id\]\.loss_probes \{\s*0 => segment_size,\s*_ => \{\s*'
+               r'self\.spaces\[space_id\]\.loss_probes -= 1;\s*cmp::min\(segment_size, usize::from\(INITIAL_MTU\)\)\s*\}\s*\};\s*buf_capacity \+= next_datagram_size_limit;')
+        if not re.search(pat, body, re.S):
+            raise Exception('poll_transmit: loss-probe size clamp shape changed')
+        return 1
+    g.nat('lossProbeClampShapeChecked', f'{connrs}::Connection::poll_transmit `next_datagram_size_limit` (a datagram started for a loss probe is limited to min(segment_size, INITIAL_MTU) whatever the packet space; modelled in Conn/Sizing.lean)', probe_clamp)
